@@ -186,10 +186,9 @@ class Model:
             elif t == spec.I_BATTERY:
                 level = parse_float_round(p)
                 if n not in self.nodes:
+                    # C04: a message referring to an unknown node fails with the error that names that node,
+                    # whatever its payload (an unusable payload is not a stated reason to say something else)
                     miss_node()
-                    if level is None or not 0 <= level <= 100:
-                        exp.open_points.append("error-precedence")
-                        exp.error = ("MissingNodeError", "InvalidMessageError")
                 elif level is None:
                     exp.outcome, exp.error = "error", ()
                 elif 0 <= level <= 100:
@@ -224,9 +223,6 @@ class Model:
                 beat = parse_int(p)
                 if n not in self.nodes:
                     miss_node()
-                    if beat is None:
-                        exp.open_points.append("error-precedence")
-                        exp.error = ("MissingNodeError", "InvalidMessageError")
                 elif beat is None:
                     exp.outcome, exp.error = "error", ()
                     exp.open_points.append("heartbeat-invalid-payload")
